@@ -5,6 +5,7 @@
    scanx … same, tokens printed as `<pos>-<stop>:<kind>:<hexlit>` (debugging, spans) -/
 import GopModel.Model.Scan
 import GopModel.Model.ScanTokens
+import GopModel.Model.ScanDomain
 import GopModel.Driver.Util
 namespace GopModel.Driver
 open GopModel.Scan
@@ -91,5 +92,28 @@ def handleTokInfo (fields : List String) : String :=
         " len=" ++ toString (TokFns.tplLen n)
       else "bad-input"
   | _ => "bad-input"
+
+/-- `golex <mode> <hex src> <letters> <digits>` → `in|out agree|differ` : C16 domain decision and whether the
+xgo and go models agree (tokens incl. inserted semicolons, errors) in the given mode.
+`shlex …` likewise for C32 (tpl vs xgo; tokens only). -/
+def domainHandler (is16 : Bool) (fields : List String) : String :=
+  match fields with
+  | [m, h, ls, ds] =>
+    match m.toNat?, bytesOfHex h, parseNats ls, parseNats ds with
+    | some m, some bs, some ls, some ds =>
+      let U : UCls := { isLetter := fun r => ls.contains r, isDigit := fun r => ds.contains r }
+      let src := bs.toArray
+      let mk (d : Dialect) : Cfg := { d := d, comments := m % 2 = 1, noSemis := m / 2 % 2 = 1, U := U }
+      if is16 then
+        (if goLexemesOnly U src then "in " else "out ") ++
+          (if agree16 (scan (mk .xgo) src) (scan (mk .go) src) then "agree" else "differ")
+      else
+        (if sharedLexemesOnly U src then "in " else "out ") ++
+          (if agree32 (scan (mk .tpl) src) (scan (mk .xgo) src) then "agree" else "differ")
+    | _, _, _, _ => "bad-input"
+  | _ => "bad-input"
+
+def handleGoLex : List String → String := domainHandler true
+def handleShLex : List String → String := domainHandler false
 
 end GopModel.Driver
